@@ -465,8 +465,11 @@ func (fr *frame) visit(instr ssa.Instruction) continuation {
 		if ln < 0 || cp < ln {
 			x.targetPanicStr("runtime error: makeslice: len out of range")
 		}
-		x.noteAlloc(cp)
 		tElt := instr.Type().Underlying().(*types.Slice).Elem()
+		x.noteAlloc(cp * elemSize(tElt))
+		if cp > 1<<22 {
+			x.targetPanicStr("runtime: out of memory (modelled: make of a slice with more than 2^22 elements)")
+		}
 		fr.env[instr] = Slice{S: x.makeBacking(tElt, int(cp))[:ln]}
 	case *ssa.MakeMap:
 		x.mapSeq++
